@@ -19,7 +19,7 @@ use std::sync::Arc;
 pub const DEF: PropDef = PropDef {
     id: "C02",
     level: "exploration",
-    rule: "cases = (dataset, query, configuration): queries are BGPs of 2-4 patterns (chain, subject star of >=3 patterns so the StarJoin rewrite fires, cycle, cartesian product, repeated variable, variable predicate), GRAPH-scoped BGPs (fixed and variable graph), UNIONs of VALUES blocks and of twin scans differing only in graph/constant (memo key), BGP+FILTER, BGP+sub-select; for each query EVERY permutation of every triples block (<=24); configurations: statistics in {fresh gather_stats_fast, empty DatabaseStats::new(), all-zero, all-huge, per-predicate cardinalities inverted, stale (real cached_stats path: query, mutate through add_triple/add_quad, query again)}; for the plan find_best_plan returns under each statistics object EVERY assignment of {BindJoin, HashJoin, NestedLoopJoin} to its join nodes (3^j), every TableScan<->IndexScan flip, StarJoin replaced by left-deep joins; thread-pool sizes {1,2,3,4,8,16} on a 210-triple dataset and on a 1099-subject dataset (1099 left rows: not divisible by any pool size and > 64 rows per worker) so that execute_bind_join splits unevenly for every pool size. Round 3: shapes whose join has a NON-SCAN right child (BIND plan joined on its target with a VALUES block / a scan, UNION, VALUES, and - differentially only - a FILTER on an outer variable), where BindJoin (left rows fed into the right plan) can differ from HashJoin / NestedLoopJoin (right plan evaluated from the unit solution and merged); Filter(StarJoin), two stars (identity + reverse permutation), and a star / a chain as the RIGHT child of a join (shapes printed with the ;/, abbreviations so that the block reaches lowering as one Bgp); statistics AllMax (every cardinality u64::MAX); the plan-variant enumeration repeated under three replacement DatasetViews (FROM g1 g2 / FROM NAMED g1 g2 / FROM g2 FROM NAMED g1) for six shapes with fresh, empty and AllMax statistics; four stale-cache flavours through the real cached_stats (grown with pre-created graphs, grown with graphs that appear after caching, shrunk with delete_triple_parts/delete_quad, first query on the empty database - the mutated database is read back and must equal the dataset of the case); every join assignment executed INSIDE pools of 1/3/16 workers on datasets with exactly 63/64/65/127/128/129 left rows (the 64-row bind-join chunk threshold). Oracle: every variant returns the same solution multiset (decoded) and that multiset equals the SPARQL-algebra reference (shape filter_right_outer_var: compared with the plan chosen under fresh statistics only). Non-trivial = case with a non-empty answer and >=2 join nodes or a non-default configuration; distinct by (query, dataset, configuration).",
+    rule: "cases = (dataset, query, configuration): queries are BGPs of 2-4 patterns (chain, subject star of >=3 patterns so the StarJoin rewrite fires, cycle, cartesian product, repeated variable, variable predicate), GRAPH-scoped BGPs (fixed and variable graph), UNIONs of VALUES blocks and of twin scans differing only in graph/constant (memo key), BGP+FILTER, BGP+sub-select; for each query EVERY permutation of every triples block (<=24); configurations: statistics in {fresh gather_stats_fast, empty DatabaseStats::new(), all-zero, all-huge, per-predicate cardinalities inverted, stale (real cached_stats path: query, mutate through add_triple/add_quad, query again)}; for the plan find_best_plan returns under each statistics object EVERY assignment of {BindJoin, HashJoin, NestedLoopJoin} to its join nodes (3^j), every TableScan<->IndexScan flip, StarJoin replaced by left-deep joins; thread-pool sizes {1,2,3,4,8,16} on a 210-triple dataset and on a 1099-subject dataset (1099 left rows: not divisible by any pool size and > 64 rows per worker) so that execute_bind_join splits unevenly for every pool size. Round 3: shapes whose join has a NON-SCAN right child (BIND plan joined on its target with a VALUES block / a scan, UNION, VALUES, and - differentially only - a FILTER on an outer variable), where BindJoin (left rows fed into the right plan) can differ from HashJoin / NestedLoopJoin (right plan evaluated from the unit solution and merged); Filter(StarJoin), two stars (identity + reverse permutation), and a star / a chain as the RIGHT child of a join (shapes printed with the ;/, abbreviations so that the block reaches lowering as one Bgp); statistics AllMax (every cardinality u64::MAX); the plan-variant enumeration repeated under three replacement DatasetViews (FROM g1 g2 / FROM NAMED g1 g2 / FROM g2 FROM NAMED g1) for seven shapes (incl. a fan-in where two left rows probe the same right triple of the merged default) with fresh, empty and AllMax statistics; four stale-cache flavours through the real cached_stats (grown with pre-created graphs, grown with graphs that appear after caching, shrunk with delete_triple_parts/delete_quad, first query on the empty database - the mutated database is read back and must equal the dataset of the case); every join assignment executed INSIDE pools of 1/3/16 workers on datasets with exactly 63/64/65/127/128/129 left rows (the 64-row bind-join chunk threshold). Oracle: every variant returns the same solution multiset (decoded) and that multiset equals the SPARQL-algebra reference (shape filter_right_outer_var: compared with the plan chosen under fresh statistics only). Non-trivial = case with a non-empty answer and >=2 join nodes or a non-default configuration; distinct by (query, dataset, configuration).",
     assumptions: &[
         "interleavings INSIDE a rayon pool are not enumerable (the pool cannot be intercepted); pool sizes are enumerated and the free-running runs are labelled as such. Structural argument: chunk results are concatenated positionally and the only state shared between chunk tasks is the dictionary behind its RwLock, whose id assignment cannot influence decoded rows",
         "plan variants are produced by rewriting the public PhysicalOperator tree; all three join algorithms are candidates of every logical join in find_best_plan_recursive, so every assignment is a plan the optimizer could select",
@@ -62,6 +62,10 @@ pub fn base_groups() -> Vec<(&'static str, Group)> {
         ("cartesian3", Group(vec![Elem::Triples(vec![sqv.clone(), xpx.clone(), tp(i(A), i(P), v("y"))])])),
         ("varpred_join", Group(vec![Elem::Triples(vec![svo.clone(), oqv.clone()])])),
         ("os_join", Group(vec![Elem::Triples(vec![spo.clone(), oqv.clone(), sqw.clone()])])),
+        // fan-in: two left rows (a p b), (c p b) probe the SAME right triple (b q 2) - under a default
+        // merged from g1 and g2 this is the only shape of the universe in which a dependent scan meets
+        // one triple twice within one call (per-call scratch state of the merged-default scan)
+        ("fan_in2", Group(vec![Elem::Triples(vec![spo.clone(), oqv.clone()])])),
         ("graph_var_bgp", Group(vec![Elem::Graph(v("g"), Group(vec![Elem::Triples(vec![spo.clone(), opz.clone()])]))])),
         ("graph_iri_bgp", Group(vec![Elem::Graph(i(G1), Group(vec![Elem::Triples(vec![spo.clone(), sqv.clone()])]))])),
         ("default_join_graph", Group(vec![Elem::Triples(vec![spo.clone(), sqv.clone()]), Elem::Graph(v("g"), Group(vec![Elem::Triples(vec![spo.clone()])]))])),
@@ -464,7 +468,7 @@ fn view_kinds() -> Vec<(&'static str, Vec<&'static str>, Vec<&'static str>)> {
 }
 
 /// shapes that are additionally run under the replacement dataset views
-const VIEW_SHAPES: [&str; 6] = ["chain2", "star3", "graph_var_bgp", "default_join_graph", "union_twin_scans_graph", "bind_right_scan"];
+const VIEW_SHAPES: [&str; 7] = ["chain2", "fan_in2", "star3", "graph_var_bgp", "default_join_graph", "union_twin_scans_graph", "bind_right_scan"];
 
 fn reference_solutions_in(g: &Group, ds: &Dataset, from: &[&str], named: &[&str]) -> Result<Vec<Sol>, String> {
     let from: Vec<String> = from.iter().map(|x| x.to_string()).collect();
